@@ -84,7 +84,7 @@ impl<const BITS: usize, const LIMBS: usize> Uint<BITS, LIMBS> {
                 // The Base-64 alphabets
                 match c {
                     'A'..='Z' => u64::from(c) - u64::from('A'),
-                    'a'..='f' => u64::from(c) - u64::from('a') + 26,
+                    'a'..='z' => u64::from(c) - u64::from('a') + 26,
                     '0'..='9' => u64::from(c) - u64::from('0') + 52,
                     '+' | '-' => 62,
                     '/' | ',' | '_' => 63,
